@@ -6,7 +6,7 @@ shutdown model `Sd`, and its preservation.
 namespace Sd
 
 /-- handed to the stream: still in its reassembly queue, or already read -/
-def Got (r : Rcv) (c : Msg) : Prop := c ∈ r.store ∨ (c.2.1, c.1) ∈ r.rlog
+def Got (r : Rcv) (c : Msg) : Prop := c ∈ r.store ∨ c ∈ r.rlog
 
 /-- every DATA chunk of the packet carries the message the sender gave that TSN -/
 def DataOk (sq : List Msg) (p : Pkt) : Prop := ∀ t m s k, Chunk.data t m s k ∈ p → sq[t]? = some (m, s, k)
@@ -23,7 +23,11 @@ structure RcvRel (sq : List Msg) (r : Rcv) : Prop where
 
 /-- what was read from each stream is a prefix of what was written to it, in order -/
 def PrefixOk (wlog : List Msg) (r : Rcv) : Prop :=
-  ∀ s, r.readOn s = ((onStream wlog s).take (r.readOn s).length).map (·.1)
+  ∀ s, onStream r.rlog s = (onStream wlog s).take (onStream r.rlog s).length
+
+theorem readOn_eq (r : Rcv) (s : Nat) : r.readOn s = (onStream r.rlog s).map (·.1) := rfl
+theorem readOn_length (r : Rcv) (s : Nat) : (r.readOn s).length = (onStream r.rlog s).length := by
+  simp [Rcv.readOn, onStream]
 
 /-! ### monotonicity -/
 theorem DataOk.ext {sq : List Msg} {p : Pkt} (h : DataOk sq p) (ext : List Msg) : DataOk (sq ++ ext) p := by
@@ -48,17 +52,15 @@ theorem RcvRel.ext {sq : List Msg} {r : Rcv} (h : RcvRel sq r) (ext : List Msg) 
 theorem PrefixOk.ext {wlog : List Msg} {r : Rcv} (h : PrefixOk wlog r) (ext : List Msg) : PrefixOk (wlog ++ ext) r := by
   intro s
   have hs := h s
-  have hlen : (r.readOn s).length ≤ (onStream wlog s).length := by
+  have hlen : (onStream r.rlog s).length ≤ (onStream wlog s).length := by
     have := congrArg List.length hs
-    simp only [List.length_map, List.length_take] at this
+    simp only [List.length_take] at this
     omega
-  rw [hs]
-  simp only [onStream, List.filter_append, List.length_map, List.length_take]
-  rw [List.take_append_of_le_length (by simp only [onStream] at hlen; omega)]
-  simp only [onStream] at hlen
-  rw [Nat.min_eq_left hlen]
+  simp only [onStream, List.filter_append] at hs hlen ⊢
+  rw [List.take_append_of_le_length hlen]
+  exact hs
 
-theorem Got.mono {r r' : Rcv} {c : Msg} (h : Got r c) (hs : ∀ x ∈ r.store, x ∈ r'.store ∨ (x.2.1, x.1) ∈ r'.rlog)
+theorem Got.mono {r r' : Rcv} {c : Msg} (h : Got r c) (hs : ∀ x ∈ r.store, x ∈ r'.store ∨ x ∈ r'.rlog)
     (hl : ∀ x ∈ r.rlog, x ∈ r'.rlog) : Got r' c := by
   rcases h with h | h
   · exact hs c h
@@ -168,12 +170,12 @@ theorem drain_rel (n : Nat) (r : Rcv) (s : Nat) (sq wlog : List Msg) (h : RcvRel
       have hcp := List.find?_some hf
       simp only [Bool.and_eq_true, beq_iff_eq] at hcp
       obtain ⟨hcs, hck⟩ := hcp
-      let r' : Rcv := { r with store := r.store.erase c, rlog := r.rlog ++ [(s, c.1)] }
+      let r' : Rcv := { r with store := r.store.erase c, rlog := r.rlog ++ [c] }
       have hG : ∀ x, Got r x → Got r' x := by
         intro x hx
         rcases hx with hx | hx
         · by_cases hxc : x = c
-          · right; simp [r', hxc, hcs]
+          · right; simp [r', hxc]
           · left; exact (List.mem_erase_of_ne hxc).2 hx
         · right; exact List.mem_append_left _ hx
       have hr' : RcvRel sq r' := by
@@ -183,19 +185,20 @@ theorem drain_rel (n : Nat) (r : Rcv) (s : Nat) (sq wlog : List Msg) (h : RcvRel
         exact ⟨x, hx, hG x hg⟩
       have hp' : PrefixOk wlog r' := by
         intro s'
-        show Rcv.readOn { r with store := r.store.erase c, rlog := r.rlog ++ [(s, c.1)] } s' = _
-        rw [readOn_append]
-        by_cases hs : s = s'
-        · subst hs
-          simp only [if_true, List.length_append, List.length_singleton]
+        show onStream (r.rlog ++ [c]) s' = (onStream wlog s').take (onStream (r.rlog ++ [c]) s').length
+        rw [onStream_append]
+        by_cases hs : c.2.1 = s'
+        · rw [hcs] at hs
+          subst hs
+          simp only [hcs, if_true, List.length_append, List.length_singleton]
           obtain ⟨hlt, hget⟩ := onStream_nth wlog hw c (hsq c (h.storeIn c hc))
+          rw [readOn_length] at hck
           rw [hcs, hck] at hlt
-          have hget' : (onStream wlog s)[(r.readOn s).length]'hlt = c := by
+          have hget' : (onStream wlog s)[(onStream r.rlog s).length]'hlt = c := by
             have : (onStream wlog c.2.1)[c.2.2]'(by rw [hcs, hck]; exact hlt) = c := hget
             simp only [hcs, hck] at this
             exact this
-          rw [List.take_succ_eq_append_getElem hlt, List.map_append, ← hp s, hget']
-          rfl
+          rw [List.take_succ_eq_append_getElem hlt, ← hp s, hget']
         · simp only [hs, if_false]; exact hp s'
       obtain ⟨i1, i2, i3⟩ := ih r' hr' hp'
       exact ⟨i1, i2, fun x hx => i3 x (hG x hx)⟩
@@ -283,8 +286,7 @@ theorem handlePkt_sndShape (e : Ep) (p : Pkt) (B : Nat) (hB : e.snd.cum ≤ B) (
 /-! ### the receive half under inbound chunks -/
 theorem PrefixOk.of_rlog {wlog : List Msg} {r r' : Rcv} (h : PrefixOk wlog r) (hr : r'.rlog = r.rlog) : PrefixOk wlog r' := by
   intro s
-  have : r'.readOn s = r.readOn s := by simp only [Rcv.readOn, hr]
-  rw [this]; exact h s
+  rw [hr]; exact h s
 
 /-- what one inbound step does to the receive half, relative to the peer's send half -/
 structure RcvStep (sq wlog : List Msg) (r r' : Rcv) : Prop where
